@@ -12,8 +12,10 @@ import (
 	"time"
 
 	"google.golang.org/grpc"
+	"google.golang.org/grpc/codes"
 	"google.golang.org/grpc/credentials/insecure"
 	"google.golang.org/grpc/metadata"
+	"google.golang.org/grpc/status"
 	"google.golang.org/protobuf/proto"
 
 	"github.com/openconfig/gnmi/manager"
@@ -116,6 +118,35 @@ var (
 	errStream  = errors.New("scripted: stream broken")
 )
 
+// shapeErr gives a failure of a double the shape the attempt's error kind
+// (errKinds in scenario.go) asks for. err is the plain Go error: ctx.Err() of a
+// cancelled or expired context, or one of the scripted errors above. The bare
+// io.EOF stays what it is (gRPC reports the end of a stream that way).
+func shapeErr(kind string, err error) error {
+	if err == nil || err == io.EOF {
+		return err
+	}
+	asGRPC := func() error {
+		if errors.Is(err, context.Canceled) || errors.Is(err, context.DeadlineExceeded) {
+			return status.FromContextError(err).Err()
+		}
+		return status.Error(codes.Unavailable, err.Error())
+	}
+	switch kind {
+	case "wrapped":
+		return fmt.Errorf("transport: %w", err)
+	case "grpc":
+		return asGRPC()
+	case "grpc-wrapped":
+		return fmt.Errorf("transport: %w", asGRPC())
+	case "grpc-canceled":
+		return status.Error(codes.Canceled, err.Error())
+	case "grpc-deadline":
+		return status.Error(codes.DeadlineExceeded, err.Error())
+	}
+	return err
+}
+
 type tgRun struct {
 	name string
 	idx  int
@@ -214,9 +245,12 @@ func (w *world) Connection(ctx context.Context, addr, dialer string) (*grpc.Clie
 		return nil, func() {}, errRefused
 	}
 	ar := &attemptRun{n: tg.next, att: defaultAttempt}
-	if ar.n < len(tg.spec.Attempts) {
-		ar.att = tg.spec.Attempts[ar.n]
+	if a, ok := scriptAt(tg.spec.Attempts, ar.n); ok {
+		ar.att = a
+	} else {
+		ar.att.Errs = tg.spec.Errs
 	}
+	shape := func(err error) error { return shapeErr(ar.att.Errs, err) }
 	tg.next++
 	tg.cur = ar
 	w.mu.Unlock()
@@ -233,23 +267,27 @@ func (w *world) Connection(ctx context.Context, addr, dialer string) (*grpc.Clie
 		if w.ov != nil {
 			w.ov.park(name, "dial", ar.n)
 		}
-		w.rec(name, kDialResult, ar.n, 0, ctx.Err(), "hang")
-		return nil, func() {}, ctx.Err()
+		err := shape(ctx.Err())
+		w.rec(name, kDialResult, ar.n, 0, err, "hang")
+		return nil, func() {}, err
 	case "refused":
 		if err := sleepCtx(ctx, ms(ar.att.DialDelayMs)); err != nil {
 			if w.ov != nil {
 				w.ov.park(name, "dial", ar.n)
 			}
+			err = shape(err)
 			w.rec(name, kDialResult, ar.n, 0, err, "ctx")
 			return nil, func() {}, err
 		}
-		w.rec(name, kDialResult, ar.n, 0, errRefused, "refused")
-		return nil, func() {}, errRefused
+		err := shape(errRefused)
+		w.rec(name, kDialResult, ar.n, 0, err, "refused")
+		return nil, func() {}, err
 	}
 	if err := sleepCtx(ctx, ms(ar.att.DialDelayMs)); err != nil {
 		if w.ov != nil {
 			w.ov.park(name, "dial", ar.n)
 		}
+		err = shape(err)
 		w.rec(name, kDialResult, ar.n, 0, err, "ctx")
 		return nil, func() {}, err
 	}
@@ -287,12 +325,14 @@ func (w *world) subscribeClient(ctx context.Context, conn *grpc.ClientConn) (gpb
 		w.flagHarness("target %s: stream opened on a connection that is not the one handed out for its address", name)
 	}
 	if err := ctx.Err(); err != nil {
+		err = shapeErr(ar.att.Errs, err)
 		w.rec(name, kOpen, ar.n, 0, err, "ctx")
 		return nil, err
 	}
 	if ar.att.Open == "open-fail" {
-		w.rec(name, kOpen, ar.n, 0, errOpen, "")
-		return nil, errOpen
+		err := shapeErr(ar.att.Errs, errOpen)
+		w.rec(name, kOpen, ar.n, 0, err, "")
+		return nil, err
 	}
 	w.rec(name, kOpen, ar.n, 0, nil, "")
 	return &stream{w: w, tg: tg, ar: ar, ctx: ctx}, nil
@@ -300,7 +340,8 @@ func (w *world) subscribeClient(ctx context.Context, conn *grpc.ClientConn) (gpb
 
 // stream is the scripted gpb.GNMI_SubscribeClient. Recv hands over the
 // scripted messages, then the scripted terminal outcome; whatever it is doing,
-// it returns ctx.Err() promptly once its context ends (as gRPC does).
+// it returns promptly once its context ends (as gRPC does) - with ctx.Err() or
+// with what a gRPC transport makes of it (Attempt.Errs, shapeErr).
 type stream struct {
 	w   *world
 	tg  *tgRun
@@ -331,6 +372,7 @@ func (s *stream) Send(req *gpb.SubscribeRequest) error {
 		info += " body-differs-from-template"
 	}
 	if err := s.ctx.Err(); err != nil {
+		err = shapeErr(s.ar.att.Errs, err)
 		s.w.rec(s.tg.name, kSend, s.ar.n, 0, err, info)
 		return err
 	}
@@ -350,6 +392,7 @@ func (s *stream) Recv() (*gpb.SubscribeResponse, error) {
 		return nil, s.fin
 	}
 	fail := func(err error, why string) (*gpb.SubscribeResponse, error) {
+		err = shapeErr(s.ar.att.Errs, err)
 		if why == "ctx" && s.w.ov != nil {
 			// overlap part: the instant the stream learnt of the cancellation is an
 			// event of its own, because the return may be held back
@@ -565,7 +608,8 @@ func (w *world) execute() (err error) {
 		if spec.Meta != "" {
 			protos[i].Meta = map[string]string{"receive_timeout": spec.Meta}
 		}
-		for n, a := range spec.Attempts {
+		for n, total := 0, scriptLen(spec.Attempts); n < total; n++ {
+			a, _ := scriptAt(spec.Attempts, n)
 			for pos, msg := range a.Msgs {
 				if msg.Kind == "update" && msg.CostMs > 0 {
 					w.cost[updateID(i, n, pos)] = ms(msg.CostMs)
